@@ -1,7 +1,172 @@
-/-  C09/Driver — line protocol front end (core-only).  Placeholder until the property is built. -/
+/-
+  C09/Driver — line protocol front end (core-only).
+  request:  <op> <how><receiver> <arg>*         reply:  <model> <spec> <dev>
+    how       M  member call  r.op(args)              (receiver: string, []uint16 string, String object, u, n)
+              C  String.prototype.op.call(r, args)
+              F  f(args) with f = String.prototype.op inside a function (this = undefined; receiver token u)
+    receiver  a value token (u n b:0 b:1 f:<16hex> s:<hex UTF-8 bytes> i64:<dec> …), w:<hex code units>
+              (a []uint16 string built by String.fromCharCode), S:<hex bytes> (new String), O:<hex bytes>
+              (object whose toString returns the string);  `-` for fromCharCode
+    results   s:<hex code units>  i:<int>  nan  a<n>:<hex>,<hex>…  undef  throw:TypeError  panic
+-/
 import OttoVerif.Base.Proto
+import OttoVerif.Base.ParseNumber
+import OttoVerif.C09.Spec
 namespace OttoVerif.C09.Driver
+open OttoVerif.F64 OttoVerif.Proto OttoVerif.Str OttoVerif.C05 OttoVerif.C09
 
-def handle (_ws : List String) : String := "bad-op"
+def decimal (i : Int) : List Nat :=
+  let ds := (Nat.toDigits 10 i.natAbs).map (·.toNat)
+  if i < 0 then 45 :: ds else ds
+
+/-- number → string for the numbers the generator uses (integers below 10^21, NaN, ±Infinity) -/
+def numStr : Val → List Nat
+  | .int _ i => decimal i
+  | .f64 .nan => [78, 97, 78]
+  | .f64 (.inf s) => (if s then [45] else []) ++ [73, 110, 102, 105, 110, 105, 116, 121]
+  | .f64 (.fin s m e) =>
+    if isIntegral m e ∧ truncAbs m e < 10^21 then decimal (truncInt (.fin s m e)) else [63]
+  | _ => [63]
+
+def env : Env := { c5 := { pn := OttoVerif.PN.parseNumber }, numStr := numStr }
+
+def nk? : String → Option NK
+  | "i8" => some .i8 | "i16" => some .i16 | "i32" => some .i32 | "i64" => some .i64 | "int" => some .int
+  | "u8" => some .u8 | "u16" => some .u16 | "u32" => some .u32 | "u64" => some .u64 | "uint" => some .uint
+  | _ => none
+
+def val? (t : String) : Option Val :=
+  if t = "u" then some .undef
+  else if t = "n" then some .null
+  else match t.splitOn ":" with
+    | ["b", "0"] => some (.bool false)
+    | ["b", "1"] => some (.bool true)
+    | ["f", h] => (f64? h).map .f64
+    | ["s", h] => (bytes? h).map .str
+    | [k, i] => do let k ← nk? k; let i ← int? i; pure (.int k i)
+    | _ => none
+
+def recv? (t : String) : Option Recv :=
+  match t.splitOn ":" with
+  | ["w", h] => (units? h).map .val16
+  | ["S", h] => (bytes? h).map .strObj
+  | ["O", h] => (bytes? h).map .obj
+  | _ => (val? t).map .val
+
+def resOut : Res → String
+  | .str us => "s:" ++ unitsOut us
+  | .int i => "i:" ++ toString i
+  | .nan => "nan"
+  | .arr xs => "a" ++ toString xs.length ++ ":" ++ ",".intercalate (xs.map unitsOut)
+  | .undef => "undef"
+  | .throwType => "throw:TypeError"
+  | .panic => "panic"
+
+def isSurr (u : Nat) : Bool := 0xD800 ≤ u ∧ u ≤ 0xDFFF
+def hasAstral (s : List Nat) : Bool := (decodeRunes s).any (· ≥ 0x10000)
+def loneSurrogate : Recv → Bool
+  | .val16 us => U (bytesOfUnits us) != us
+  | _ => false
+
+def isNumArg (v : Val) : Bool := match v with | .undef => false | _ => true
+
+/-- |ToNumber(v)| ≥ 2^63: Go's float→int64 conversion is out of range (C05 region toInt_big) -/
+def bigInt (v : Val) : Bool :=
+  match toFloat env.c5 v with
+  | .fin s m e => decide ((truncInt (.fin s m e)).natAbs ≥ 2^63)
+  | _ => false
+
+def isStrObj : Recv → Bool | .strObj _ => true | _ => false
+def isObj : Recv → Bool | .obj _ => true | _ => false
+def optSurr : Option Nat → Bool | some u => isSurr u | none => false
+def emptySep (v : Val) : Bool := match v with | .undef => false | sv => (toStr env sv).isEmpty
+
+/-- deviation regions: decidable predicates of the request (never of model ≠ spec) -/
+def devs (op : String) (how : String) (r0 : Recv) (rm : Recv) (args : List Val) : List String :=
+  let value := C09.thisString env rm
+  let a0 := argAt args 0
+  let a1 := argAt args 1
+  let posUnit : Option Nat :=        -- the code unit the model's stringAt finds, for charAt-like ops
+    match rm with
+    | .strObj s =>
+      let idx : Int := if op = "index" then stringToArrayIndex (toStr env a0) else (number env a0).i
+      if 0 ≤ idx ∧ idx < strLength s then some (strAt s idx.toNat) else none
+    | _ => none
+  let charLike : Bool := op == "charAt" || op == "charCodeAt"
+  let hasPos : Bool := decide (args.length ≥ 2) && isNumArg a1
+  let n1 := number env a1
+  let tlen : Int := (toStr env a0).length
+  let d : List (String × Bool) := [
+    ("call_undefined_this", how == "C" && r0 == .val .undef),
+    ("lone_surrogate", loneSurrogate r0),
+    ("charAt_receiver_panic", charLike && coercible rm && !isStrObj rm && !(isObj rm && decide ((number env a0).i < 0))),
+    ("charAt_fffd", (charLike || op == "index") && posUnit == some 0xFFFD),
+    ("charAt_surrogate", (op == "charAt" || op == "index") && optSurr posUnit),
+    ("index_noncanonical", op == "index" && decide (stringToArrayIndex (toStr env a0) ≥ 0)
+        && (Spec.canonIndex (toStr env a0)).isNone),
+    ("rune_offsets", (op == "slice" || op == "substring" || op == "substr") && hasAstral value),
+    ("substr_overflow_panic", op == "substr" &&
+        (let size : Int := (decodeRunes value).length
+         let sl := rangeStartLength env args size
+         decide (sl.1 < size ∧ sl.2 > 0 ∧ sl.1 + sl.2 ≥ 2^63))),
+    ("indexOf_byte_offset", op == "indexOf" && decide (args.length ≥ 2) &&
+        (let p : Nat := match toIntegerE env a1 with
+           | .ninf => 0 | .pinf => value.length | .fin i => if i < 0 then 0 else i.toNat
+         !isASCII (value.take p))),
+    ("lastIndexOf_nan", op == "lastIndexOf" && hasPos && isNaN (toFloat env.c5 a1)),
+    ("lastIndexOf_neginf", op == "lastIndexOf" && hasPos && toFloat env.c5 a1 == .inf true),
+    ("lastIndexOf_overflow_panic", op == "lastIndexOf" && hasPos && decide (value.length > 0)
+        && !n1.isInf && decide (n1.i + tlen ≥ 2^63)),
+    ("lastIndexOf_byte_offset", op == "lastIndexOf" && hasPos && !n1.isInf &&
+        (let s0 := if n1.i < 0 then 0 else n1.i
+         !isASCII (value.take (s0 + tlen).toNat))),
+    ("split_empty_sep_astral", op == "split" && emptySep a0 && hasAstral value),
+    ("toUint_big", (op == "split" && isNumArg a1 && bigInt a1) || (op == "fromCharCode" && args.any bigInt))
+  ]
+  (d.filter (·.2)).map (·.1)
+
+def reply (m s : Res) (dev : List String) : String :=
+  resOut m ++ " " ++ resOut s ++ " " ++ (if dev.isEmpty then "-" else ",".intercalate dev)
+
+abbrev Method := Env → Recv → List Val → Res
+
+def methods (op : String) : Option (Method × Method) :=
+  match op with
+  | "charAt" => some (C09.charAt, Spec.charAt)
+  | "charCodeAt" => some (C09.charCodeAt, Spec.charCodeAt)
+  | "concat" => some (C09.concat, Spec.concat)
+  | "indexOf" => some (C09.indexOf, Spec.indexOf)
+  | "lastIndexOf" => some (C09.lastIndexOf, Spec.lastIndexOf)
+  | "slice" => some (C09.slice, Spec.slice)
+  | "substring" => some (C09.substring, Spec.substring)
+  | "substr" => some (C09.substr, Spec.substr)
+  | "split" => some (C09.split, Spec.split)
+  | "trim" => some (C09.trim, Spec.trim)
+  | "localeCompare" => some (C09.localeCompare, Spec.localeCompare)
+  | "length" => some (fun E r _ => C09.length E r, fun E r _ => Spec.length E r)
+  | "index" => some (fun E r a => C09.index E r (argAt a 0), fun E r a => Spec.index E r (argAt a 0))
+  | _ => none
+
+def handle (ws : List String) : String :=
+  match ws with
+  | "fromCharCode" :: "-" :: as =>
+    match as.mapM val? with
+    | some args => reply (C09.fromCharCode env args) (Spec.fromCharCode env args) (devs "fromCharCode" "-" (.val .undef) (.val .undef) args)
+    | none => "bad-op"
+  | op :: rt :: as =>
+    let how := (rt.take 1).toString
+    match methods op, recv? (rt.drop 1).toString, as.mapM val? with
+    | some (mf, sf), some r0, some args =>
+      let nullish := r0 = .val .undef ∨ r0 = .val .null
+      -- the `this` value the built-in receives on each side
+      let rm? : Option Recv :=
+        if how = "M" then memberThis env r0 else if how = "C" then some (callThis r0) else some r0
+      match rm? with
+      | none => reply .throwType .throwType []          -- member access on undefined / null (§11.2.1)
+      | some rm =>
+        let s := if how = "M" ∧ nullish then Res.throwType else sf env r0 args
+        reply (mf env rm args) s (devs op how r0 rm args)
+    | _, _, _ => "bad-op"
+  | _ => "bad-op"
 
 end OttoVerif.C09.Driver
